@@ -80,7 +80,7 @@ for k, v in EXTRA_TEXT.items():
 EXTRA_TEXT2 = {
  "C04": " Added: runs as a process of its own with the main output on standard output next to a redirect/info/rest file (1-3 cores): the report's written reads and base pairs against what standard output holds.",
  "C06": " Added: main output on standard output next to other output files with worker processes; every sink's content recomputed from the reads and compared with the single-core run.",
- "C09": " Added: the rounds of --times on both mates of a paired-end run (same adapter list for R1 and R2) against the single-end run that the rule oracle judges.",
+ "C09": " Added: the rounds of --times on both mates of a paired-end run (same adapter list for R1 and R2) against the single-end run that the rule oracle judges; Proofs/PairedRounds.lean: paired_rounds_on_both_mates / paired_rounds_r2_only (both cutters of the paired assembly carry --times and --action).",
  "C11": " Added: a quarter of the filter cases on FASTA input (criteria that need no qualities hold whatever the format).",
  "C15": " Added: output templates that name the adapter more than once ({name}...{name}, {name1}-{name2}...{name1}-{name2}).",
  "C17": " Added: a linked match with both parts followed by a match in a later round (--times 2/3).",
